@@ -243,6 +243,7 @@ theorem R'_mods : R'.mods = [o, s1, s2] := rfl
 
 theorem mem_subs {sb : Mod} (h : sb ∈ sp.subs) : sb = s1 ∨ sb = s2 := by simpa [sp] using h
 theorem mem_R {x : Mod} (h : x ∈ R.mods) : x = m := by rw [R_mods] at h; simpa using h
+theorem mem_parts {P : Mod} (h : P ∈ sp.parts) : P = o ∨ P = s1 ∨ P = s2 := by simpa [sp, Split.parts] using h
 
 theorem textOK : TextOK sp where
   m_kw := rfl
@@ -298,6 +299,64 @@ theorem regsOK : RegsOK sp R R' where
   keys_apart := by
     intro a ha b hb
     rcases mem_subs ha with rfl | rfl <;> rcases mem_subs hb with rfl | rfl <;> decide
+  inc_resolve := by
+    intro P hP a ha
+    rcases mem_parts hP with rfl | rfl | rfl
+    · have : a = inc1 ∨ a = inc2 := by
+        have h : a ∈ [inc1, inc2] := ha
+        simpa using h
+      rcases this with rfl | rfl
+      · exact ⟨s1, by simp [sp], rfl⟩
+      · exact ⟨s2, by simp [sp], rfl⟩
+    · have h : a ∈ ([] : List Stmt) := ha
+      cases h
+    · have h : a ∈ ([] : List Stmt) := ha
+      cases h
+  inc_cover := by
+    intro sb hsb
+    rcases mem_subs hsb with rfl | rfl
+    · exact .step (.refl _) ⟨inc1, (by show inc1 ∈ [inc1, inc2]; simp), rfl⟩
+    · exact .step (.refl _) ⟨inc2, (by show inc2 ∈ [inc1, inc2]; simp), rfl⟩
+  inc_no_back := by
+    intro P hP Q hQ hinc
+    have hsub : ∀ X, X = s1 ∨ X = s2 → ∀ Y, ¬ Includes R' X Y := by
+      rintro X (rfl | rfl) Y ⟨a, ha, _⟩
+      · have h : a ∈ ([] : List Stmt) := ha
+        cases h
+      · have h : a ∈ ([] : List Stmt) := ha
+        cases h
+    rcases mem_parts hP with rfl | rfl | rfl
+    · refine ⟨?_, ?_⟩
+      · rintro rfl
+        obtain ⟨a, ha, hf⟩ := hinc
+        have : a = inc1 ∨ a = inc2 := by
+          have h : a ∈ [inc1, inc2] := ha
+          simpa using h
+        rcases this with rfl | rfl
+        · have h2 : R'.findModule true inc1 = some s1 := rfl
+          rw [h2] at hf
+          have : s1.seq = o.seq := by rw [Option.some.inj hf]
+          exact absurd this (by decide)
+        · have h2 : R'.findModule true inc2 = some s2 := rfl
+          rw [h2] at hf
+          have : s2.seq = o.seq := by rw [Option.some.inj hf]
+          exact absurd this (by decide)
+      · obtain ⟨a, ha, hf⟩ := hinc
+        have : a = inc1 ∨ a = inc2 := by
+          have h : a ∈ [inc1, inc2] := ha
+          simpa using h
+        rcases this with rfl | rfl
+        · have h2 : R'.findModule true inc1 = some s1 := rfl
+          rw [h2] at hf
+          rw [← Option.some.inj hf]
+          exact hsub s1 (Or.inl rfl) _
+        · have h2 : R'.findModule true inc2 = some s2 := rfl
+          rw [h2] at hf
+          rw [← Option.some.inj hf]
+          exact hsub s2 (Or.inr rfl) _
+    · exact absurd hinc (hsub s1 (Or.inl rfl) Q)
+    · exact absurd hinc (hsub s2 (Or.inr rfl) Q)
+  keys_inj := by decide +kernel
 
 /-- From every part the grouping `g` binds to `m`'s statement, found in `s2`: from the owner through
 its include statements, from `s1` through its owner, in `s2` itself. -/
